@@ -94,4 +94,95 @@ abbrev jeFld (buf : Bytes) (sp : Bool) (ns : Int) (rbuf renc : List Val) (newRef
   [("buf", .bytes buf), ("spaced", .bool sp), ("openNs", .int ns), ("rbuf", .list rbuf), ("renc", .list renc),
    ("newRefl", newRefl), ("self", self), ("ev", .list ev)]
 
+/-! ### `EncodeEntry`: the configuration it reads, the entry it is handed, what it computes -/
+
+/-- the `EncoderConfig` fields `EncodeEntry` reads (keys, line ending, the nil-able sub-encoder functions) -/
+structure ECfg where
+  levelKey : Bytes
+  timeKey : Bytes
+  nameKey : Bytes
+  callerKey : Bytes
+  functionKey : Bytes
+  messageKey : Bytes
+  stacktraceKey : Bytes
+  lineEnding : Bytes
+  encLevel : List Val
+  encTime : List Val
+  encName : List Val
+  encCaller : List Val
+
+/-- the fields in play in `EncodeEntry`: the clone `final` (buf, spaced, openNs, rbuf, renc), the shared configuration,
+    the receiver `enc` (o.buf, o.spaced, o.openNs: the logger's context encoder), the trace -/
+abbrev eeFld (c : ECfg) (buf : Bytes) (sp : Bool) (ns : Int) (rbuf renc : List Val) (obuf : Bytes) (osp : Bool) (ons : Int)
+    (self : Val) (ev : List Val) : Env :=
+  [("buf", .bytes buf), ("spaced", .bool sp), ("openNs", .int ns), ("rbuf", .list rbuf), ("renc", .list renc),
+   ("levelKey", .bytes c.levelKey), ("timeKey", .bytes c.timeKey), ("nameKey", .bytes c.nameKey),
+   ("callerKey", .bytes c.callerKey), ("functionKey", .bytes c.functionKey), ("messageKey", .bytes c.messageKey),
+   ("stacktraceKey", .bytes c.stacktraceKey), ("lineEnding", .bytes c.lineEnding),
+   ("encLevel", .list c.encLevel), ("encTime", .list c.encTime), ("encName", .list c.encName), ("encCaller", .list c.encCaller),
+   ("o.buf", .bytes obuf), ("o.spaced", .bool osp), ("o.openNs", .int ons), ("self", self), ("ev", .list ev)]
+
+/-- a `zapcore.Entry` as the translated function reads it: Level, Time, LoggerName, Message, Caller, Stack -/
+structure EEnt where
+  level : Int
+  time : Val
+  name : Bytes
+  message : Bytes
+  callerDefined : Bool
+  function : Bytes
+  callerRest : Val
+  stack : Bytes
+
+def EEnt.caller (e : EEnt) : Val := .list [.bool e.callerDefined, .bytes e.function, e.callerRest]
+def EEnt.val (e : EEnt) : Val :=
+  .list [.int e.level, e.time, .bytes e.name, .bytes e.message, e.caller, .bytes e.stack]
+
+/-- `cur := buf.Len(); sub(…); if cur == buf.Len() { AppendString(fallback) }` -/
+def subOr (sp : Bool) (k s fallback : Bytes) : Bytes := if k.length = s.length then appendString sp s fallback else s
+
+def levelBlock (P : Par) (c : ECfg) (sp : Bool) (e : EEnt) (b : Bytes) : Bytes :=
+  if c.levelKey.isEmpty || c.encLevel.isEmpty then b
+  else subOr sp (Enc.addKey sp b c.levelKey) (P.subLevel c.encLevel (.int e.level) sp (Enc.addKey sp b c.levelKey))
+    (P.levelString e.level)
+
+def timeBlock (P : Par) (c : ECfg) (sp : Bool) (e : EEnt) (b : Bytes) : Bytes :=
+  if c.timeKey.isEmpty || P.timeIsZero e.time then b else P.addTime c.encTime sp b c.timeKey e.time
+
+/-- a nil `EncodeName` is `FullNameEncoder` (the value `[0]`) -/
+def nameFn (c : ECfg) : List Val := if c.encName.isEmpty then [.int 0] else c.encName
+
+def nameBlock (P : Par) (c : ECfg) (sp : Bool) (e : EEnt) (b : Bytes) : Bytes :=
+  if e.name.isEmpty || c.nameKey.isEmpty then b
+  else subOr sp (Enc.addKey sp b c.nameKey) (P.subName (nameFn c) (.bytes e.name) (Enc.addKey sp b c.nameKey)) e.name
+
+def callerBlock (P : Par) (c : ECfg) (sp : Bool) (e : EEnt) (b : Bytes) : Bytes :=
+  if !e.callerDefined then b
+  else
+    let b1 := if c.callerKey.isEmpty || c.encCaller.isEmpty then b
+      else subOr sp (Enc.addKey sp b c.callerKey) (P.subCaller c.encCaller e.caller sp (Enc.addKey sp b c.callerKey))
+        (P.callerString e.caller)
+    if c.functionKey.isEmpty then b1 else appendString sp (Enc.addKey sp b1 c.functionKey) e.function
+
+def messageBlock (c : ECfg) (sp : Bool) (e : EEnt) (b : Bytes) : Bytes :=
+  if c.messageKey.isEmpty then b else appendString sp (Enc.addKey sp b c.messageKey) e.message
+
+/-- the raw context bytes of the logger's encoder, after a separator -/
+def ctxBlock (sp : Bool) (obuf b : Bytes) : Bytes := if obuf.isEmpty then b else sep sp b ++ obuf
+
+def stackBlock (c : ECfg) (sp : Bool) (e : EEnt) (b : Bytes) : Bytes :=
+  if e.stack.isEmpty || c.stacktraceKey.isEmpty then b else appendString sp (Enc.addKey sp b c.stacktraceKey) e.stack
+
+/-- the buffer after the metadata part: `{`, level, time, name, caller/function, message -/
+def metaBytes (P : Par) (c : ECfg) (sp : Bool) (e : EEnt) : Bytes :=
+  messageBlock c sp e (callerBlock P c sp e (nameBlock P c sp e (timeBlock P c sp e (levelBlock P c sp e [123]))))
+
+/-- the state of `final` after `addFields` -/
+def afterFields (P : Par) (c : ECfg) (sp : Bool) (ons : Int) (obuf : Bytes) (e : EEnt) (fields : Val) : St :=
+  P.addFields fields sp ⟨ctxBlock sp obuf (metaBytes P c sp e), ons, [], []⟩
+
+/-- the line `EncodeEntry` returns -/
+def entryBytes (P : Par) (c : ECfg) (sp : Bool) (ons : Int) (obuf : Bytes) (e : EEnt) (fields : Val) : Bytes :=
+  stackBlock c sp e (closeNs (afterFields P c sp ons obuf e fields).buf (afterFields P c sp ons obuf e fields).ns)
+    ++ 125 :: c.lineEnding
+
 end ZapVerif.TransJsonEnc
